@@ -32,6 +32,19 @@ void vr_get(const char *name, void *dst, size_t elem, size_t n);
 # define VNOTE(...) ((void)0)
 #endif
 
+/* a heap block of exactly n bytes, n <= max: the size is a *constant* in each branch, which keeps the object a fixed-size
+ * array for CBMC (objects of symbolic size are far more expensive); any access beyond n is still a failed obligation */
+static void *vmalloc_exact(size_t n, size_t max) {
+	void *p = NULL; size_t k_;
+#ifdef VREPLAY
+	(void)max; (void)k_; p = malloc(n ? n : 1);
+#else
+	for (k_ = 1; k_ <= max; k_++) if (k_ == n) p = malloc(k_);
+	__CPROVER_assume(p != NULL);
+#endif
+	return p;
+}
+
 /* labelled assertions: the label prefix is what vlib/run.py classifies on.
  * VCOVERMODE (vacuity guard, separate run): only the input-diversity markers are compiled, as assertions that must FAIL. */
 #ifdef VCOVERMODE
